@@ -20,6 +20,7 @@ vars == <<toks>>
 Tokens == <<
   "a", "b|c", "(", ")", "(?:", "(?i:", "(?-s:", "(?s)", "(?i)", "\\(", "\\)", "?i:", "\\(?i:", "\\(?s:b", "\\(?i)", "?", "*", "+", "|", "[", "]", "[^", "a-",
   "{", "}", "{{", "}}", "{{x}}", "{2,3}", "\\", "\\\\", "\"", "\\\"", "^", "$", ".", "\\x", "\\x5c", "\\s", " ", "\t",
+  "\\Q", "\\E", "\\Q[", "\\Q[^", "\\Q(?i:",     \* literal quoting: the text parses although it ends in an open bracket
   "NL", "CR", "CTRL1", "NUL", "UTF8", "BAD8",
   "##!", "##!>", "##!<", "##!=>", "##!=<", "##!+", "##!^", "##!$", " assemble", " cmdline", " unix", " define", " x", " include",
   " include-except", " f", " --", " i", "@", "~", "'",
